@@ -57,6 +57,6 @@ def queries():
             q2 = copy.copy(q)
             q2.name = mod.__name__.split(".")[-1] + "-" + q.name
             q2.tier = "quick" if (pick(q) and mod in (c09, c07)) else "thorough"
-            q2.nowitness = True
+            q2.nowitness = q.nowitness or (q2.tier != "quick")
             qs.append(q2)
     return qs
